@@ -206,11 +206,12 @@ func genC06(o *out, r *Rng) {
 			g.Prefix = fmt.Sprintf("s%d", s)
 			g.UseText, g.UseArgs, g.UsePory = true, true, r.P(40)
 			g.Texts = []string{"Hello", "Bye$", "Third one"}
+			g.AutoText = true
 			g.MaxDepth = 2
 			body := g.Block(0, false, false, 4)
 			g.FixGotos(body)
-			if r.P(50) {
-				mv := []string{"walk_up", "walk_down * 2", "face_left"}[r.N(3)]
+			for k := r.N(3); k > 0; k-- {
+				mv := []string{"walk_up", "walk_down * 2", "face_left", "face_left walk_down * 3", "face_left walk_down * 2", "walk_up walk_up", "walk_up * 2"}[r.N(7)]
 				body = append(body, &Stmt{Kind: "cmd", Name: "applymovement", Args: []string{"1", ",", "moves", "(", mv, ")"}})
 			}
 			t = append(t, ScriptToks(fmt.Sprintf("Scr%d", s), "", body)...)
@@ -502,11 +503,23 @@ func genC14(o *out, r *Rng) {
 			}
 		}
 		var src Toks
-		switch r.N(3) {
+		switch r.N(4) {
 		case 0:
 			src = append(append(Toks{"movement", "M", "{"}, t...), "}")
 		case 1:
 			src = append(append(Toks{"script", "S", "{", "applymovement", "(", "P", ",", "moves", "("}, t...), ")", ")", "}")
+		case 2:
+			// several moves() whose contents differ only in a multiplier or a trailing run: sharing must be by expanded content
+			base := []string{"face_left", "walk_up", "jump"}[r.N(3)]
+			src = Toks{"script", "S", "{"}
+			for k := 0; k < 2+r.N(3); k++ {
+				src = append(src, "applymovement", "(", "P", ",", "moves", "(", base, ",", "walk_up", "*", []string{"1", "2", "3", "2"}[r.N(4)])
+				if r.P(30) {
+					src = append(src, "walk_up")
+				}
+				src = append(src, ")", ")")
+			}
+			src = append(src, "}", "script", "S2", "{", "applymovement", "(", "P", ",", "moves", "(", base, ",", "walk_up", "*", "2", ")", ")", "}")
 		default:
 			// mart
 			var it Toks
@@ -562,6 +575,7 @@ func genC16(o *out, r *Rng) {
 			o.add(E2E(s, Opts{Opt: true, Sw: defSw, LmPath: p}))
 		}
 		o.add(E2E(s, Opts{Opt: true, Sw: defSw}))
+		o.add(E2E(s, Opts{Opt: true, Sw: defSw, LmOn: true})) // -lm (the default) reading from stdin: no markers
 	}
 	for i := 0; i < scale(300, 6000); i++ {
 		g := NewProgGen(r)
@@ -580,6 +594,9 @@ func genC16(o *out, r *Rng) {
 		opt := r.P(50)
 		o.add(E2E(src, Opts{Opt: opt, Sw: g.Sw, LmPath: paths[r.N(3)]}))
 		o.add(E2E(src, Opts{Opt: opt, Sw: g.Sw}))
+		if r.P(30) {
+			o.add(E2E(src, Opts{Opt: opt, Sw: g.Sw, LmOn: true}))
+		}
 	}
 	for i := 0; i < scale(300, 6000); i++ {
 		g := NewScriptGen(r)
@@ -616,6 +633,21 @@ func genC17(o *out, r *Rng) {
 		pool = append(pool, E2E(src, Opts{Opt: r.P(50), Sw: g.Sw, Lint: r.P(10)}))
 	}
 	pool = append(pool, E2E("script S { msgbox(format(\"x y\", \"bogus\")) }", Opts{Opt: true, Sw: defSw}), E2E("text T { format(\"x\", \"nofont\") }", Opts{Sw: defSw}))
+	dup := "text A { \"1\" }\ntext B { \"2\" }\n\ntext A { \"3\" }\ntext C { \"c\" }\ntext B { \"4\" }\ntext C { \"5\" }\nmovement M { walk_up }\nmovement N { walk_up }\nmovement M { walk_down }\nmovement N { x }"
+	dup2 := "script S { msgbox(\"a\") msgbox(\"b\") }\ntext S_Text_1 { \"x\" }\ntext S_Text_0 { \"y\" }"
+	dup3 := "movement M { walk_up }\nmovement N { walk_up }\nmovement M { walk_down }\nmovement N { x }\nmovement O { x }\nmovement O { y }"
+	for k := 0; k < 12; k++ {
+		pool = append(pool, E2E(dup, Opts{Opt: true, Sw: defSw}), E2E(dup2, Opts{Opt: true, Sw: defSw}), E2E(dup3, Opts{Opt: true, Sw: defSw}))
+	}
+	fsA := "f|f:60:2:0:" + Hex(" ") + "=3;" + Hex("default") + "=6"
+	fsB := "f|f:60:2:0:" + Hex(" ") + "=1;" + Hex("default") + "=2"
+	fsC := "f|f:60:2:0:" + Hex(" ") + "=3;" + Hex("default") + "=6;" + Hex("e") + "=1;" + Hex("o") + "=14"
+	ftxt := "script S { msgbox(format(\"Hello there some words to wrap around the text box of the game one two three\")) }\ntext T { format(\"one two three four five six seven eight nine ten eleven twelve\", numLines=3) }"
+	for k := 0; k < 4; k++ {
+		for _, fs := range []string{fsA, fsB, fsC, fsB, fsA} {
+			pool = append(pool, E2E(ftxt, Opts{Opt: true, Sw: defSw, FontSpec: fs}))
+		}
+	}
 	n := len(pool) * 3
 	for i := 0; i < n; i++ {
 		o.add(pool[r.N(len(pool))])
@@ -647,7 +679,14 @@ func genC17(o *out, r *Rng) {
 			}
 		}
 		x := mk(r.N(4))
+		if r.P(40) {
+			// a script whose labels imitate the generated labels of *other* scripts (legal: they are not its own)
+			x = Toks{"script", "Xs", "{", "lock", fmt.Sprintf("Other_%d", 1+r.N(4)), ":", "if", "(", "flag", "(", "F", ")", ")", "{", fmt.Sprintf("Other_%d", 5+r.N(3)), ":", "a", "}", "b", "}"}
+		}
 		var before, after Toks
+		if r.P(60) {
+			before = Toks{"script", "Other", "{", "if", "(", "flag", "(", "A", ")", ")", "{", "p", "}", "while", "(", "flag", "(", "B", ")", ")", "{", "q", "if", "(", "flag", "(", "C", ")", ")", "{", "r", "}", "}", "s", "}"}
+		}
 		for k := r.N(3); k > 0; k-- {
 			before = append(before, mk(r.N(5))...)
 		}
@@ -703,6 +742,16 @@ func genC18(o *out, r *Rng) {
 	}
 	for i := 0; i < scale(500, 10000); i++ {
 		emit(Soup(r))
+	}
+	for _, s := range []string{"const TWO = A B\nmart M { TWO X }", "const TWO = A B\nmart M { X TWO TWO }\nmovement Mv { TWO }", "const E =\nmart M { E }", "const K = ITEM_NONE\nmart M { A K B }"} {
+		emit(s)
+	}
+	for i := 0; i < scale(400, 8000); i++ {
+		g := NewScriptGen(r)
+		g.UseText, g.UseArgs, g.UsePory = true, true, r.P(30)
+		body := g.Block(0, false, false, 6)
+		g.FixGotos(body)
+		emit(ScriptToks("S", "", body).Canon())
 	}
 	// deep nesting
 	for _, d := range []int{10, 50, scale(200, 2000)} {
